@@ -49,6 +49,9 @@ type function struct {
 	name    string
 	params  []string
 	results []string
+	// recovers: the body recovers a panic, directly or through a helper it calls. With the
+	// recover.in_range switch off such helpers are not called from the body of a range loop.
+	recovers bool
 }
 
 type gen struct {
@@ -69,6 +72,7 @@ type gen struct {
 	curHasCall, curHasFault bool
 	inFunc                  *function // function being generated (nil in main)
 	budget                  int       // remaining statements
+	curRecovers             bool      // see function.recovers
 	structs                 bool
 }
 
@@ -228,12 +232,20 @@ func (g *gen) expr(typ string, depth int) string {
 	return e
 }
 
+// mayFault reports whether an operation that can panic may be generated here. A statement
+// holds at most one: the order of two faulting operations (a division and a slice expression,
+// say) is not fixed by the language, so which panic is raised would be implementation-specific.
 func (g *gen) mayFault() bool {
-	if g.noFault || g.curHasCall {
+	if g.noFault || g.curHasCall || g.curHasFault {
 		return false
 	}
 	g.curHasFault = true
 	return true
+}
+
+// callable reports whether f may be called at the current position.
+func (g *gen) callable(f function) bool {
+	return !(f.recovers && g.rangeDepth > 0 && g.off["recover.in_range"])
 }
 
 func (g *gen) callOf(typ string, depth int) (string, bool) {
@@ -242,7 +254,7 @@ func (g *gen) callOf(typ string, depth int) (string, bool) {
 	}
 	var cands []function
 	for _, f := range g.funcs {
-		if len(f.results) == 1 && f.results[0] == typ {
+		if len(f.results) == 1 && f.results[0] == typ && g.callable(f) {
 			cands = append(cands, f)
 		}
 	}
@@ -251,6 +263,7 @@ func (g *gen) callOf(typ string, depth int) (string, bool) {
 	}
 	f := cands[g.pick("callee", len(cands))]
 	g.curHasCall = true
+	g.curRecovers = g.curRecovers || f.recovers
 	var args []string
 	for _, p := range f.params {
 		args = append(args, g.expr(p, depth-1))
@@ -712,12 +725,22 @@ func (g *gen) stmtSlice() {
 		g.line("%s = append(%s, 1, 2)", s, s)
 	case 3:
 		if !g.off["fault.slice"] {
-			g.line("%s = %s[%s:%s]", s, s, g.oneOf("slo", []string{"", "0", "1"}), g.oneOf("shi", []string{"", "1", "2", "3"}))
+			// The capacity after append is implementation-specific (gc 1.25 keeps small
+			// backing stores on the stack), so the operand is first clipped to its length:
+			// whether the high bound is in range then depends on the length alone.
+			g.line("%s = %s[:len(%s):len(%s)][%s:%s]", s, s, s, s, g.oneOf("slo", []string{"", "0", "1"}), g.oneOf("shi", []string{"", "1", "2", "3"}))
 			g.feat("slice_reslice")
 			return
 		}
 		g.line("%s = append(%s, 3)", s, s)
 	case 4:
+		if !g.off["fault.slice"] && g.chance("capslice", 2) {
+			// reslicing between length and capacity, on a slice whose capacity the language fixes
+			g.line("println(len(make([]int, %d, %d)[%s:%s]))", g.pick("cslen", 3), 3+g.pick("cscap", 2), g.oneOf("cslo", []string{"", "0", "2"}), g.oneOf("cshi", []string{"2", "3", "4", "5"}))
+			g.curHasFault = true
+			g.feat("slice_reslice_cap")
+			return
+		}
 		g.line("println(len(%s), cap(%s) >= len(%s))", s, s, s)
 	default:
 		d := g.declare("int")
@@ -821,7 +844,12 @@ func (g *gen) stmtCall() {
 		return
 	}
 	f := g.funcs[g.pick("scallee", len(g.funcs))]
+	if !g.callable(f) {
+		g.stmtPrint()
+		return
+	}
 	g.curHasCall = true
+	g.curRecovers = g.curRecovers || f.recovers
 	var args []string
 	for _, p := range f.params {
 		args = append(args, g.expr(p, 1))
@@ -875,6 +903,7 @@ func (g *gen) stmtPanicky() {
 		return
 	}
 	g.feat("recover")
+	g.curRecovers = true
 	g.line("func() {")
 	g.indent++
 	g.line("defer func() {")
@@ -943,8 +972,8 @@ func (g *gen) stmt() {
 	g.budget--
 	g.curHasCall, g.curHasFault = false, false
 	k := g.pick("stmt", 24)
-	if g.rangeDepth > 0 && g.off["recover.in_range"] && (k == 20 || k == 21 || k >= 23) {
-		k = 0 // no recovered panic (directly or through a helper) inside a range loop
+	if g.rangeDepth > 0 && g.off["recover.in_range"] && k >= 23 {
+		k = 0 // no recovered panic inside a range loop (helpers that recover are filtered by callable)
 	}
 	switch k {
 	case 0, 1, 2, 3:
@@ -1004,6 +1033,7 @@ func (g *gen) genFunc(idx int) {
 	g.line("func %s(%s)%s {", f.name, strings.Join(ps, ", "), res)
 	g.indent++
 	g.inFunc = &f
+	g.curRecovers = false
 	n := 1 + g.pick("fbody", 4)
 	for i := 0; i < n; i++ {
 		g.stmt()
@@ -1025,6 +1055,7 @@ func (g *gen) genFunc(idx int) {
 	g.indent--
 	g.line("}")
 	g.line("")
+	f.recovers = g.curRecovers
 	g.funcs = append(g.funcs, f)
 }
 
